@@ -2126,6 +2126,10 @@ func (t *tScreen) disengage() {
 	t.wg.Wait()
 
 	// shutdown the screen and disable special modes (e.g. mouse and bracketed paste)
+	// The application may still be calling us from other goroutines, so
+	// the cell buffer and the terminal are touched under the lock.
+	t.Lock()
+	defer t.Unlock()
 	ti := t.ti
 	t.cells.Resize(0, 0)
 	t.TPuts(ti.ShowCursor)
